@@ -69,7 +69,9 @@ func init() {
 	regExplore("C05", append([]WorldRun{wrPayReplay}, txWorlds()[1:]...), one(monitors.Authorization{}))
 	regExplore("C22", []WorldRun{wrCoin, wrPool}, one(monitors.Registry{}))
 	// paytable: the pay world under a price table denominated in a custom coin
-	regExplore("C27", append(txWorlds(), WorldRun{World: "paytable", Quick: b(2, 2, 1), Thorough: b(2, 2, 2), MenuFilter: noReplay, OneEnv: true}), one(monitors.Fees{}))
+	regExplore("C27", append(txWorlds(), WorldRun{World: "paytable", Quick: b(2, 2, 1), Thorough: b(2, 2, 2), MenuFilter: noReplay, OneEnv: true}),
+		// the price table the fees are judged by is the node's own: it has to be the committed one
+		one(monitors.Committed(monitors.Fees{}, "commission/")))
 	regExplore("C04", []WorldRun{wrPayReplay}, one(monitors.OnceInOrder{}))
 	// C07: the transaction worlds, the block-environment worlds (evidence, absences, block
 	// times, period boundaries), then the byte-edit neighbourhoods
